@@ -43,7 +43,11 @@ Ctors == {[kind |-> "ctor", cy |-> IntC(2020), cm |-> cm, cd |-> cd] : cm \in Od
 EdgeDates == {D(2020, 2, 28), D(2020, 2, 29), D(2020, 3, 1), D(2020, 12, 31), D(2021, 1, 1), D(2021, 1, 31), D(2021, 2, 1), D(2021, 2, 28), D(2021, 3, 1),
               D(1999, 12, 31), D(2000, 1, 1), D(1, 1, 1), D(0 - 1, 12, 31), D(0 - 1, 1, 1), D(0 - 2, 6, 15), D(9999, 12, 31), D(10000, 1, 1),
               D(262143, 12, 31), D(262144, 1, 1), D(262144, 1, 2), D(0 - 262144, 1, 1), D(0 - 262145, 12, 31), D(0 - 262145, 12, 30),
-              D(999999999, 12, 30), D(999999999, 12, 31), D(0 - 999999999, 1, 1), D(0 - 999999999, 1, 2), D(2021, 10, 9), D(2021, 9, 10)}
+              D(999999999, 12, 30), D(999999999, 12, 31), D(0 - 999999999, 1, 1), D(0 - 999999999, 1, 2), D(2021, 10, 9), D(2021, 9, 10),
+              \* years around the powers of two at which a packed or shifted representation of a date would wrap
+              D(32767, 12, 31), D(32768, 1, 1), D(65536, 1, 1), D(2097151, 12, 31), D(2097152, 1, 1), D(4194303, 12, 31), D(4194304, 1, 1), D(8388608, 1, 1),
+              D(0 - 32768, 12, 31), D(0 - 32769, 1, 1), D(0 - 2097152, 6, 15), D(0 - 4194304, 12, 31), D(0 - 4194305, 1, 1), D(0 - 8388609, 1, 1),
+              D(16777216, 1, 1), D(100000000, 6, 15), D(0 - 100000000, 6, 15), D(536870912, 1, 1), D(0 - 536870912, 1, 1)}
 DPairs == {[kind |-> "dpair", a |-> a, b |-> b] : a \in EdgeDates, b \in EdgeDates}
 
 \* ---- date-and-time pairs: readings around the switch-over days of the zones, against UTC / offset readings
